@@ -782,3 +782,51 @@ Lemma rearm_refuted :
 Proof.
   exists [AFd 3], [ORun true; OAccept ClBusy], (fun _ => []). vm_compute. repeat split.
 Qed.
+
+(* ------------------------------------------------------------------ *)
+(* combined statements used by Properties_C07.v *)
+Lemma Qinv_meaning a :
+  Qinv a <-> (0 < q_offset a <= q_size a)%nat /\ length (q_fds a) = q_size a /\ (q_size a mod 8 = 0)%nat.
+Proof. reflexivity. Qed.
+
+Theorem ipc_fifo kind ao al oo os beh :
+  Forall acc_ok ao -> Forall op_ok os ->
+  let '(x, tr) := run kind (init true ao al oo) os beh in
+  arrivals tr = departs tr ++ held (sv x) /\
+  pending_count (sv x) = Z.of_nat (length (held (sv x))) /\
+  pending_type kind (sv x) = match held (sv x) with [] => 0 | f :: _ => kind f end /\
+  (s_acc (sv x) = -1 -> s_q (sv x) = None) /\
+  (forall a, s_q (sv x) = Some a ->
+     (0 < q_offset a <= q_size a)%nat /\ length (q_fds a) = q_size a /\ (q_size a mod 8 = 0)%nat).
+Proof.
+  intros Fa Fo. pose proof (fifo kind true ao al oo os beh Fa Fo) as H.
+  destruct (run kind (init true ao al oo) os beh) as [x tr] eqn:E. destruct H as (X & H).
+  destruct (run_flow _ _ _ _ _ _ (init_inv true ao al oo Fa) Fo E) as (_ & _ & Hi). cbn in Hi.
+  destruct X as [I A O]. split; [exact H|]. split; [apply pending_count_held; assumption|].
+  split; [apply pending_type_head; assumption|]. destruct I as (A3 & Q & _). split; [exact A3|].
+  intros a Ha. rewrite Ha in Q. exact Q.
+Qed.
+
+Theorem eagain_iff_none kind ipc ao al oo os beh c :
+  Forall acc_ok ao -> Forall op_ok os ->
+  let s := sv (fst (run kind (init ipc ao al oo) os beh)) in
+  In (ERet UV_EAGAIN) (snd (uv_accept s c)) <-> held s = [].
+Proof.
+  intros Fa Fo. pose proof (fifo kind ipc ao al oo os beh Fa Fo) as H.
+  destruct (run kind (init ipc ao al oo) os beh) as [x tr]. destruct H as (X & _).
+  cbn [fst]. apply accept_eagain, (xi_s _ X).
+Qed.
+
+(* how many connection callbacks: as many as connections kept *)
+Definition n_cb (tr : list ev) : nat := length (filter (fun e => match e with ECb => true | _ => false end) tr).
+Lemma cb_ok_count tr : cb_ok tr = true -> n_cb tr = length (arrivals tr).
+Proof.
+  assert (G : forall n tr, (length tr <= n)%nat -> cb_ok tr = true -> n_cb tr = length (arrivals tr)).
+  { induction n as [|n IH]; intros t Hl Hc.
+    - destruct t; [reflexivity|cbn in Hl; lia].
+    - destruct t as [|e t]; [reflexivity|]. cbn in Hl.
+      destruct e; cbn in Hc |- *; try (apply IH; [lia|exact Hc]); try discriminate.
+      destruct t as [|e2 t]; [discriminate|]. destruct e2; try discriminate.
+      cbn. f_equal. apply IH; [cbn in Hl; lia|exact Hc]. }
+  intros H. apply (G (length tr)); [lia|exact H].
+Qed.
